@@ -26,6 +26,10 @@ func checkC10(c *Ctx) {
 	c.checkOnlineCounter()
 	c.checkOnOffSymmetry()
 	c.checkNoLostUpdate()
+	// each recipient gets its own copy of the {pres} payload
+	c.checkMessageCopyIsDeep()
+	c.checkPayloadFreshPerMessage()
+	c.checkIntersectionPairsAreGenerations("C10.7-intersections-pair-generations")
 	c.checkIntersect()
 }
 
